@@ -119,14 +119,66 @@ class NPProxy:
     def array(self, a, dtype=None, **kw):
         return self._conv(_np.array, a, dtype, **kw)
 
+    def _filled(self, shape, value):
+        out = _np.empty(shape, dtype=object)
+        flat = out.reshape(-1)
+        v = Sym.lift(value)
+        for i in range(flat.size):
+            flat[i] = v
+        return out.view(SymArray)
+
+    def _real_alloc(self, dtype):
+        """in a symbolic run an array allocated as float is an array of reals: symbolic values may be stored into it"""
+        return (dtype is None or dtype in _FLOATS) and core.CUR is not None and getattr(core.CUR, "symbolic", False)
+
     def zeros(self, shape, dtype=None, **kw):
-        if dtype is None and core.CUR is not None:
-            out = _np.empty(shape, dtype=object)
-            flat = out.reshape(-1)
-            for i in range(flat.size):
-                flat[i] = Sym.lift(0)
-            return out.view(SymArray)
+        if self._real_alloc(dtype):
+            return self._filled(shape, 0)
         return _np.zeros(shape, **({} if dtype is None else {"dtype": dtype}), **kw)
+
+    def empty(self, shape, dtype=None, **kw):
+        if self._real_alloc(dtype):
+            return self._filled(shape, 0)       # (uninitialised in NumPy; reading before writing is a bug either way)
+        return _np.empty(shape, **({} if dtype is None else {"dtype": dtype}), **kw)
+
+    def ones(self, shape, dtype=None, **kw):
+        if self._real_alloc(dtype):
+            return self._filled(shape, 1)
+        return _np.ones(shape, **({} if dtype is None else {"dtype": dtype}), **kw)
+
+    def full(self, shape, fill_value, dtype=None, **kw):
+        if (dtype in _FLOATS or (dtype is None and (isinstance(fill_value, (float, Sym)) or _has_sym(fill_value)))) \
+                and core.CUR is not None and getattr(core.CUR, "symbolic", False) and _np.ndim(fill_value) == 0:
+            return self._filled(shape, fill_value)
+        return _np.full(shape, fill_value, **({} if dtype is None else {"dtype": dtype}), **kw)
+
+    def _like(self, a, dtype, value, fn, **kw):
+        is_real = isinstance(a, _np.ndarray) and (a.dtype == object or a.dtype.kind == "f")
+        if (dtype in _FLOATS or (dtype is None and is_real)) and core.CUR is not None and getattr(core.CUR, "symbolic", False):
+            return self._filled(_np.shape(a), value)
+        return fn(a, **({} if dtype is None else {"dtype": dtype}), **kw)
+
+    def zeros_like(self, a, dtype=None, **kw):
+        return self._like(a, dtype, 0, _np.zeros_like, **kw)
+
+    def ones_like(self, a, dtype=None, **kw):
+        return self._like(a, dtype, 1, _np.ones_like, **kw)
+
+    def empty_like(self, a, dtype=None, **kw):
+        return self._like(a, dtype, 0, _np.empty_like, **kw)
+
+    def full_like(self, a, fill_value, dtype=None, **kw):
+        is_real = isinstance(a, _np.ndarray) and (a.dtype == object or a.dtype.kind == "f")
+        if (dtype in _FLOATS or (dtype is None and is_real)) and core.CUR is not None and getattr(core.CUR, "symbolic", False) \
+                and _np.ndim(fill_value) == 0:
+            return self._filled(_np.shape(a), fill_value)
+        return _np.full_like(a, fill_value, **({} if dtype is None else {"dtype": dtype}), **kw)
+
+    def digitize(self, x, bins, right=False):
+        if _has_sym(x) or _has_sym(bins):
+            # documented equivalence for increasing bins
+            return _np.searchsorted(_np.asarray(bins, dtype=object), _np.asarray(x, dtype=object), side="left" if right else "right")
+        return _np.digitize(x, bins, right=right)
 
     def linspace(self, start, stop, num=50, endpoint=True, retstep=False, dtype=None, axis=0):
         """numpy.linspace by its documented definition, start + i*(stop-start)/div, last sample = stop.
